@@ -489,3 +489,70 @@ pub fn gen_history(r: &mut Rng, p: &Program, cfg: &GenCfg) -> Vec<Op> {
     ops.push(Op::Round(vec![n - 1]));
     ops
 }
+
+
+// ------------------------------------------------------------------------------------------
+// targeted family: layered firewall programs with value-dependent switches between firewalls,
+// driven by "well-behaved" histories (the same roots queried every epoch).  Exercises the
+// transitive-firewall-callee bookkeeping: a dependency switching between two equal-valued
+// firewalls under a chain of nodes that are only re-verified, projections over two firewalls of
+// which one changes, a firewall above a firewall that does not change.
+// ------------------------------------------------------------------------------------------
+
+pub fn gen_layered(r: &mut Rng) -> Case {
+    let mut nodes: Vec<NodeDef> = vec![];
+    let n_in = r.range(2, 4) as u32;
+    for _ in 0..n_in { nodes.push(NodeDef { kind: Kind::Input, default: 0, expr: Expr::Const(0) }); }
+    let inputs: Vec<u32> = (0..n_in).collect();
+    // layer 1: firewalls over one input each, with a small range so that equal values are common
+    let n_fw = r.range(2, 3) as u32;
+    let mut fws = vec![];
+    for _ in 0..n_fw {
+        let i = *r.pick(&inputs[1..]);
+        let e = match r.below(3) {
+            0 => Expr::Read(i),
+            1 => Expr::IfEq(Box::new(Expr::Read(i)), r.below(3) as i64, Box::new(Expr::Const(r.below(2) as i64)), Box::new(Expr::Const(r.below(2) as i64 + 1))),
+            _ => Expr::Add(Box::new(Expr::Read(i)), Box::new(Expr::Const(r.below(2) as i64))),
+        };
+        fws.push(nodes.len() as u32);
+        nodes.push(NodeDef { kind: Kind::Firewall, default: kind_default(Kind::Firewall), expr: e });
+    }
+    // optional projections over firewalls, optional firewall over a firewall
+    let mut mids = fws.clone();
+    if r.chance(1, 2) {
+        let a = *r.pick(&fws); let b = *r.pick(&fws);
+        mids.push(nodes.len() as u32);
+        nodes.push(NodeDef { kind: Kind::Projection, default: kind_default(Kind::Projection), expr: Expr::Add(Box::new(Expr::Read(a)), Box::new(Expr::Read(b))) });
+    }
+    if r.chance(1, 3) {
+        let a = *r.pick(&fws);
+        mids.push(nodes.len() as u32);
+        nodes.push(NodeDef { kind: Kind::Firewall, default: kind_default(Kind::Firewall), expr: Expr::IfEq(Box::new(Expr::Read(a)), r.below(3) as i64, Box::new(Expr::Const(0)), Box::new(Expr::Const(1))) });
+    }
+    // selector node: reads input 0 and then ONE of two middle nodes
+    let a = *r.pick(&mids); let mut b = *r.pick(&mids); if b == a { b = mids[(mids.iter().position(|x| *x == a).unwrap() + 1) % mids.len()]; }
+    let pick = nodes.len() as u32;
+    nodes.push(NodeDef { kind: Kind::Normal, default: kind_default(Kind::Normal), expr: Expr::IfEq(Box::new(Expr::Read(0)), 0, Box::new(Expr::Read(a)), Box::new(Expr::Read(b))) });
+    // chain of nodes that only pass the value on (they are re-verified, not re-executed, when it does not change)
+    let mut prev = pick;
+    let mut chain = vec![pick];
+    for _ in 0..r.range(1, 3) {
+        let k = nodes.len() as u32;
+        let e = if r.chance(1, 3) { Expr::Add(Box::new(Expr::Read(prev)), Box::new(Expr::Const(r.below(2) as i64))) } else { Expr::Read(prev) };
+        nodes.push(NodeDef { kind: Kind::Normal, default: kind_default(Kind::Normal), expr: e });
+        chain.push(k); prev = k;
+    }
+    let top = prev;
+    let p = Program { nodes };
+    // history: the same root every epoch (sometimes also an inner node)
+    let mut ops = vec![Op::Session(inputs.iter().map(|k| Write::Set(*k, r.below(3) as i64)).collect())];
+    ops.push(Op::Round(vec![top]));
+    for _ in 0..r.range(3, 8) {
+        let mut ws = vec![];
+        for _ in 0..r.range(1, 2) { ws.push(Write::Set(*r.pick(&inputs), r.below(3) as i64)); }
+        ops.push(Op::Session(ws));
+        if r.chance(1, 5) { ops.push(Op::Round(vec![*r.pick(&chain)])); }
+        ops.push(Op::Round(vec![top]));
+    }
+    Case { program: p, ops }
+}
